@@ -27,7 +27,7 @@ MANIFEST = {
 }
 MANIFEST["text"] += " " + (
     'Added after the seeding waves: every SQLite map is built twice (bulk inserts; add_node/add_edge single inserts); a far-south latitude-longitude frame at 400 m per unit; radii derived from attained node distances (the element is inside by 1e-4 of the radius); the single-insert build offers every node with ignore_doubles=True and every label a second time with other coordinates (a tile-wise import; the content must stay that of the first offer); a third SQLite build with deferred indexing (no_index / no_commit inserts, then reindex_nodes / reindex_edges); and query - EDIT - query on the live in-memory map (the last node is moved by del_node / add_node / add_edge, a size-preserving edit, and every query is asked again).')
-BUDGET = {"quick": 300, "thorough": 1500}
+BUDGET = {"quick": 600, "thorough": 1500}
 RULE = ("cases = (frame, map); each enumerates both backends x all query locations x radii x {pair, triple} x max_elmt. "
         "states = distinct (backend, map, frame, query, radius) configurations, transitions = API calls compared with the scan, "
         "non-trivial = the true answer is non-empty and does not contain every element (the radius separates elements), or an "
